@@ -71,7 +71,10 @@ def body(rng, later, size):
     return (ev.And if r < 0.6 else ev.Or)(*[body(rng, later, max(1, (size - 1) // 2)) for _ in range(rng.choice([2, 2, 3]))])
 
 
-def run_tool(policy_text, token, is_admin, target, requested, rng):
+TOOL_N = [0]
+
+
+def run_tool(policy_text, token, is_admin, target, requested, rng, via_main=False):
     from oslo_policy import shell
     d = tempfile.mkdtemp(prefix='verif_chk_')
     try:
@@ -87,8 +90,23 @@ def run_tool(policy_text, token, is_admin, target, requested, rng):
         crashed = 0
         exc = ''
         try:
+            TOOL_N[0] += 1
             with contextlib.redirect_stdout(out):
-                shell.tool(pf, af, requested or None, is_admin, tf)
+                if TOOL_N[0] % 3 == 0 or via_main:
+                    # through the console entry point (oslopolicy-checker), options as command-line arguments
+                    import sys
+                    from unittest import mock
+                    argv = ['oslopolicy-checker', '--policy', pf, '--access', af]
+                    if requested:
+                        argv += ['--rule', requested]
+                    if is_admin:
+                        argv.append('--is_admin')
+                    if tf:
+                        argv += ['--target', tf]
+                    with mock.patch.object(sys, 'argv', argv):
+                        shell.main()
+                else:
+                    shell.tool(pf, af, requested or None, is_admin, tf)
         except Exception as ex:
             crashed = 1
             exc = '%s: %s' % (type(ex).__name__, ex)
@@ -177,6 +195,13 @@ def run(ctx):
                 rules.append(('default', rng.choice([ev.T, ev.F, ev.role('admin')])))
                 base.append('default')
             forced_req = 'svc:top'
+        force_main = False
+        if g % 25 == 7 and g < n_gen:
+            # the --is_admin switch of the command line: policies that look at is_admin, through the console entry point
+            rules = [('svc:adm', ev.generic('is_admin', 'True')), ('svc:nadm', ev.Not(ev.generic('is_admin', 'True'))),
+                     ('svc:mix', ev.Or(ev.role('nobody'), ev.rule('adm'))), ('adm', ev.generic('is_admin', 'True')), ('svc:false', ev.generic('is_admin', 'False'))]
+            base = [n for n, _ in rules]
+            force_main = True
         texts = {n: ev.rule_text(t, rng) for n, t in rules}
         policy_text = rng.choice([json.dumps(texts, indent=1), json.dumps(texts, indent='\t'), json.dumps(texts, separators=(',\t', ':\t')),
                                   yaml.safe_dump(texts, default_flow_style=False)])
@@ -197,7 +222,9 @@ def run(ctx):
             requested = 'not:defined'
         if forced_req:
             requested = forced_req
-        out, crashed, exc = run_tool(policy_text, token, is_admin, target, requested, rng)
+        if force_main:
+            is_admin = (g // 25) % 2 == 0
+        out, crashed, exc = run_tool(policy_text, token, is_admin, target, requested, rng, via_main=force_main)
         strs = list(texts.values())
         ev.all_text(token, strs)
         ev.all_text(target or {}, strs)
